@@ -128,3 +128,137 @@ fn h01g_rem_div_total_general() {
     forget(r);
     forget(q);
 }
+
+macro_rules! ok {
+    ($e:expr, $msg:literal) => {
+        match $e {
+            Ok(v) => v,
+            Err(e) => {
+                forget(e);
+                panic!($msg)
+            }
+        }
+    };
+}
+
+// @harness h01g_bitwise_shift_general tier=quick props=C01,C02
+// @bounds none: ∀ int32 × int32 (jsvalue-enum configuration)
+// @domain ∀ x,y∈i32: JsValue::{bitand,bitor,bitxor,shl,shr,ushr} (general methods)
+// @claim ≡ &,|,^ ; << and >> with the count taken mod 32 (ToUint32(count) & 31, negative counts included); >>> on the unsigned image, a Number above i32::MAX when needed; no coercion attempted; never panics
+// @stubs std::rt::thread_cleanup→{}; JsValue::to_primitive/to_numeric/to_string→unreachable
+#[kani::proof]
+#[kani::stub(std::rt::thread_cleanup, noop)]
+#[kani::stub(JsValue::to_primitive, stub_to_primitive)]
+#[kani::stub(JsValue::to_numeric, stub_to_numeric)]
+#[kani::stub(JsValue::to_string, stub_to_string)]
+fn h01g_bitwise_shift_general() {
+    let (x, y, a, b) = ints();
+    let ctx = placeholder_ctx();
+    let sh = (y as u32) & 31;
+    let r1 = ok!(a.bitand(&b, ctx), "verif: & must not throw");
+    let r2 = ok!(a.bitor(&b, ctx), "verif: | must not throw");
+    let r3 = ok!(a.bitxor(&b, ctx), "verif: ^ must not throw");
+    assert!(num(&r1) == (true, x & y, 0) && num(&r2) == (true, x | y, 0) && num(&r3) == (true, x ^ y, 0), "verif: general bitwise operators");
+    let r4 = ok!(a.shl(&b, ctx), "verif: << must not throw");
+    let r5 = ok!(a.shr(&b, ctx), "verif: >> must not throw");
+    assert!(num(&r4) == (true, (((x as u32 as u64) << sh) & 0xFFFF_FFFF) as u32 as i32, 0), "verif: general <<");
+    assert!(num(&r5) == (true, ((x as i64) >> sh) as i32, 0), "verif: general >>");
+    let r6 = ok!(a.ushr(&b, ctx), "verif: >>> must not throw");
+    let want_u = (x as u32 as u64) >> sh;
+    let (u_int, u_iv, u_fb) = num(&r6);
+    if u_int {
+        assert!(want_u <= i32::MAX as u64 && u_iv as u64 == want_u, "verif: general >>> small");
+    } else {
+        assert!(want_u > i32::MAX as u64 && u_fb == vm::i64_to_f64_bits_exact(want_u as i64), "verif: general >>> large is exact");
+    }
+    kani::cover!(y < 0, "negative shift count");
+    kani::cover!(y >= 32, "shift count ≥ 32");
+    kani::cover!(true, "reaches end");
+    forget(a);
+    forget(b);
+    forget(r1);
+    forget(r2);
+    forget(r3);
+    forget(r4);
+    forget(r5);
+    forget(r6);
+}
+
+// @harness h01g_compare_general tier=quick props=C01,C02
+// @bounds none: ∀ (int32 ∪ double) × double (jsvalue-enum configuration)
+// @domain ∀ x∈i32 ∪ f64 bits, ∀ y∈f64 bits: JsValue::{lt,le,gt,ge} (general methods through abstract_relation, both operand orders)
+// @claim ≡ IEEE <,≤,>,≥ with every comparison involving NaN false (integer comparison of the bit patterns as model); no coercion attempted
+// @stubs std::rt::thread_cleanup→{}; JsValue::to_primitive/to_numeric/to_string→unreachable
+#[kani::proof]
+#[kani::stub(std::rt::thread_cleanup, noop)]
+#[kani::stub(JsValue::to_primitive, stub_to_primitive)]
+#[kani::stub(JsValue::to_numeric, stub_to_numeric)]
+#[kani::stub(JsValue::to_string, stub_to_string)]
+fn h01g_compare_general() {
+    let xi: i32 = kani::any();
+    let xf: u64 = kani::any();
+    let x_is_int: bool = kani::any();
+    let yb: u64 = kani::any();
+    let (a, xb) = if x_is_int { (JsValue::new(xi), f64::from(xi).to_bits()) } else { (JsValue::new(f64::from_bits(xf)), xf) };
+    let b = JsValue::new(f64::from_bits(yb));
+    let ctx = placeholder_ctx();
+    let nan = vm::is_nan_bits(xb) || vm::is_nan_bits(yb);
+    assert!(ok!(a.lt(&b, ctx), "verif: < must not throw") == vm::lt_bits(xb, yb), "verif: general x < y");
+    assert!(ok!(b.lt(&a, ctx), "verif: < must not throw") == vm::lt_bits(yb, xb), "verif: general y < x");
+    assert!(ok!(a.gt(&b, ctx), "verif: > must not throw") == vm::lt_bits(yb, xb), "verif: general x > y");
+    assert!(ok!(a.le(&b, ctx), "verif: <= must not throw") == (!nan && !vm::lt_bits(yb, xb)), "verif: general x <= y");
+    assert!(ok!(a.ge(&b, ctx), "verif: >= must not throw") == (!nan && !vm::lt_bits(xb, yb)), "verif: general x >= y");
+    assert!(ok!(b.le(&a, ctx), "verif: <= must not throw") == (!nan && !vm::lt_bits(xb, yb)), "verif: general y <= x");
+    kani::cover!(nan, "NaN operand");
+    kani::cover!(xb == 0 && yb == 0x8000_0000_0000_0000, "+0 vs -0");
+    kani::cover!(true, "reaches end");
+    forget(a);
+    forget(b);
+}
+
+// @harness h01g_mul_special_general tier=quick props=C01,C02
+// @bounds ∀ int32 x; multiplier ∈ {0, −1, i32::MIN} (enumerated), both operand orders (jsvalue-enum configuration)
+// @domain ∀ x∈i32; y ∈ {0,−1,MIN}: JsValue::mul (general method)
+// @claim Integer32(exact) iff the exact product fits and is not a −0 case; 0·negative is exactly −0; otherwise a double; never panics
+// @stubs std::rt::thread_cleanup→{}; JsValue::to_primitive/to_numeric/to_string→unreachable
+#[kani::proof]
+#[kani::stub(std::rt::thread_cleanup, noop)]
+#[kani::stub(JsValue::to_primitive, stub_to_primitive)]
+#[kani::stub(JsValue::to_numeric, stub_to_numeric)]
+#[kani::stub(JsValue::to_string, stub_to_string)]
+fn h01g_mul_special_general() {
+    let x: i32 = kani::any();
+    let a = JsValue::new(x);
+    let ctx = placeholder_ctx();
+    let ys = [0i32, -1, i32::MIN];
+    let mut k = 0;
+    while k < 3 {
+        let y = ys[k];
+        let b = JsValue::new(y);
+        let e = x as i64 * y as i64;
+        let neg_zero = e == 0 && (x < 0 || y < 0);
+        let p1 = ok!(a.mul(&b, ctx), "verif: * must not throw");
+        let p2 = ok!(b.mul(&a, ctx), "verif: * must not throw");
+        let rs = [num(&p1), num(&p2)];
+        let mut j = 0;
+        while j < 2 {
+            let (is_int, iv, fb) = rs[j];
+            if is_int {
+                assert!(fits(e) && !neg_zero && iv as i64 == e, "verif: general * exact when it fits and is not -0");
+            } else {
+                assert!(!fits(e) || neg_zero, "verif: general * leaves the int path only on overflow or -0");
+                if neg_zero {
+                    assert!(fb == 0x8000_0000_0000_0000, "verif: general 0 * negative is -0");
+                }
+            }
+            j += 1;
+        }
+        forget(b);
+        forget(p1);
+        forget(p2);
+        k += 1;
+    }
+    kani::cover!(x < 0, "negative multiplicand");
+    kani::cover!(true, "reaches end");
+    forget(a);
+}
